@@ -1394,6 +1394,31 @@ restore:
   return true;
 }
 
+/* A counted snapshot of the children of win, so that event handlers may close or
+ * drop any of them while the list is being walked */
+static size_t _ref_children(TickitWindow *win, TickitWindow ***childrenp)
+{
+  size_t n = tickit_window_children(win);
+  TickitWindow **children = n ? malloc(n * sizeof(TickitWindow *)) : NULL;
+  if(!children)
+    n = 0;
+
+  n = tickit_window_get_children(win, children, n);
+  for(size_t i = 0; i < n; i++)
+    tickit_window_ref(children[i]);
+
+  *childrenp = children;
+  return n;
+}
+
+static void _unref_children(TickitWindow **children, size_t n)
+{
+  for(size_t i = 0; i < n; i++)
+    tickit_window_unref(children[i]);
+
+  free(children);
+}
+
 static int _handle_key(TickitWindow *win, TickitKeyEventInfo *info)
 {
   if(!win->is_visible)
@@ -1414,14 +1439,26 @@ static int _handle_key(TickitWindow *win, TickitKeyEventInfo *info)
     goto done;
 
   // Last-ditch attempt to spread it around other children
-  TickitWindow *next;
-  for(TickitWindow *child = win->first_child; child; child = next) {
-    next = child->next;
+  {
+    TickitWindow **children;
+    size_t n_children = _ref_children(win, &children);
+    int handled = 0;
 
-    if(child == win->focused_child)
-      continue;
+    for(size_t i = 0; i < n_children && !handled; i++) {
+      TickitWindow *child = children[i];
 
-    if(_handle_key(child, info))
+      if(child->parent != win) // closed by a handler in the meantime
+        continue;
+
+      if(child == win->focused_child)
+        continue;
+
+      handled = _handle_key(child, info);
+    }
+
+    _unref_children(children, n_children);
+
+    if(handled)
       goto done;
   }
 
@@ -1442,25 +1479,37 @@ static TickitWindow *_handle_mouse(TickitWindow *win, TickitMouseEventInfo *info
   TickitWindow *ret;
   tickit_window_ref(win);
 
-  TickitWindow *next;
-  for(TickitWindow *child = win->first_child; child; child = next) {
-    next = child->next;
+  {
+    TickitWindow **children;
+    size_t n_children = _ref_children(win, &children);
+    ret = NULL;
 
-    int child_line = info->line - child->rect.top;
-    int child_col  = info->col  - child->rect.left;
+    for(size_t i = 0; i < n_children && !ret; i++) {
+      TickitWindow *child = children[i];
 
-    if(!child->steal_input) {
-      if(child_line < 0 || child_line >= child->rect.lines)
+      if(child->parent != win) // closed by a handler in the meantime
         continue;
-      if(child_col < 0 || child_col >= child->rect.cols)
-        continue;
+
+      int child_line = info->line - child->rect.top;
+      int child_col  = info->col  - child->rect.left;
+
+      if(!child->steal_input) {
+        if(child_line < 0 || child_line >= child->rect.lines)
+          continue;
+        if(child_col < 0 || child_col >= child->rect.cols)
+          continue;
+      }
+
+      TickitMouseEventInfo childinfo = *info;
+      childinfo.line = child_line;
+      childinfo.col  = child_col;
+
+      ret = _handle_mouse(child, &childinfo);
     }
 
-    TickitMouseEventInfo childinfo = *info;
-    childinfo.line = child_line;
-    childinfo.col  = child_col;
+    _unref_children(children, n_children);
 
-    if((ret = _handle_mouse(child, &childinfo)))
+    if(ret)
       goto done;
   }
 
